@@ -32,6 +32,10 @@ DOCS = {
     "sub/d.md": "> quote   text\n",
 }
 BAD = b"\xff\xfe not utf-8 \xff\n"
+# a document the formatter itself fails on (300 nested list levels: RecursionError, known finding C12-deep-nesting-recursion),
+# stored with CRLF line ends so that a "pass the text through" would show in the bytes
+DEEP = "".join("  " * i + "- x\r\n" for i in range(300)).encode()
+STALE_ORIG = "a stale backup of an earlier run\n"
 CRLF = b"Windows   line ends\r\nhere,  long enough to be wrapped when the width is small, for sure it is.\r\n\r\n* item\r\n"
 
 # (name, files in order, flags, bad file index or None)
@@ -48,10 +52,15 @@ SCENARIOS = [
     ("unchanged-file", ["c.md"], ["--inplace"], None),
     ("crlf-backup", ["crlf.md"], ["--inplace"], None),
     ("same-file-twice", ["a.md", "sub/../a.md", "b.md"], ["--inplace"], None),
+    # a .orig left behind by an earlier run: the backup must hold what a.md held BEFORE THIS run
+    ("stale-orig", ["a.md", "b.md"], ["--inplace"], None),
+    # formatting itself fails on the middle file: it and everything after it stay untouched
+    ("unformattable-middle", ["a.md", "deep.md", "b.md"], ["--inplace"], 1),
 ]
+EXTRA_FILES = {"stale-orig": {"a.md.orig": STALE_ORIG}}
 
 
-def make_sandbox(files) -> Path:
+def make_sandbox(files, extra=None) -> Path:
     base = Path(tempfile.mkdtemp(prefix="fmfs."))
     sb = base / "sb"
     sb.mkdir()
@@ -62,10 +71,14 @@ def make_sandbox(files) -> Path:
             p.write_bytes(BAD)
         elif f == "crlf.md":
             p.write_bytes(CRLF)
+        elif f == "deep.md":
+            p.write_bytes(DEEP)
         elif os.path.normpath(f) != f:
             continue            # another spelling of a file that is written under its plain name
         else:
             p.write_text(DOCS[f])
+    for f, content in (extra or {}).items():
+        (sb / f).write_text(content)
     return base
 
 
@@ -98,9 +111,9 @@ def snapshot(sb: Path) -> dict[str, bytes]:
     return out
 
 
-def reference_run(files, flags):
+def reference_run(files, flags, extra=None):
     """the uninterrupted run: final snapshot, op count and op log"""
-    base = make_sandbox(files)
+    base = make_sandbox(files, extra)
     try:
         sb = base / "sb"
         before = snapshot(sb)
@@ -151,29 +164,36 @@ def whole_state(name, files, flags, before, after_ref, state, bad_idx) -> str | 
 
 def inject_all(ctx: Ctx, scen, modes) -> None:
     name, files, flags, bad_idx = scen
-    before, after_ref, n, log, rc, _ = reference_run(files, flags)
+    extra = EXTRA_FILES.get(name)
+    before, after_ref, n, log, rc, _ = reference_run(files, flags, extra)
     ctx.extra.setdefault("ops_per_scenario", {})[name] = n
     msg = whole_state(name, files, flags, before, after_ref, after_ref, bad_idx)
     if msg:
         ctx.fail("WHOLE: the uninterrupted run itself does not end in a whole state", {"scenario": name, "files": files, "flags": flags}, msg)
         return
-    for k in range(1, n + 1):
-        for mode in modes:
-            base = make_sandbox(files)
-            try:
-                sb = base / "sb"
-                r = subprocess.run([sys.executable, str(HERE / "fsinject.py"), mode, str(k), str(sb), "--", *cli_args(sb, files, flags)], capture_output=True, text=True, input=DOCS["a.md"])
-                state = snapshot(sb)
-                ctx.count(["inject", name, k, mode], nontrivial=True, sample=(k == 1 and mode == "fail"))
-                ctx.bump("inject:" + mode)
-                msg = whole_state(name, files, flags, before, after_ref, state, bad_idx)
-                if msg:
-                    ctx.fail("WHOLE: after a fault a file is neither complete old nor complete new",
-                             {"scenario": name, "files": files, "flags": flags, "fault": mode, "at_operation": k, "operation": log[k - 1] if k <= len(log) else "?"},
-                             {"problem": msg, "rc": r.returncode})
-                    return
-            finally:
-                shutil.rmtree(base, ignore_errors=True)
+    def one(job):
+        k, mode = job
+        base = make_sandbox(files, extra)
+        try:
+            sb = base / "sb"
+            r = subprocess.run([sys.executable, str(HERE / "fsinject.py"), mode, str(k), str(sb), "--", *cli_args(sb, files, flags)], capture_output=True, text=True, input=DOCS["a.md"])
+            return k, mode, snapshot(sb), r.returncode
+        finally:
+            shutil.rmtree(base, ignore_errors=True)
+
+    from concurrent.futures import ThreadPoolExecutor
+    jobs = [(k, mode) for k in range(1, n + 1) for mode in modes]
+    with ThreadPoolExecutor(max_workers=8) as ex:
+        results = list(ex.map(one, jobs))
+    for k, mode, state, rc2 in results:
+        ctx.count(["inject", name, k, mode], nontrivial=True, sample=(k == 1 and mode == "fail"))
+        ctx.bump("inject:" + mode)
+        msg = whole_state(name, files, flags, before, after_ref, state, bad_idx)
+        if msg:
+            ctx.fail("WHOLE: after a fault a file is neither complete old nor complete new",
+                     {"scenario": name, "files": files, "flags": flags, "fault": mode, "at_operation": k, "operation": log[k - 1] if k <= len(log) else "?"},
+                     {"problem": msg, "rc": rc2})
+            return
 
 
 # ------------------------------------------------------------------------------------------
@@ -182,8 +202,8 @@ def inject_all(ctx: Ctx, scen, modes) -> None:
 SYS = "openat,open,creat,rename,renameat,renameat2,unlink,unlinkat,mkdir,mkdirat,write,pwrite64,writev,truncate,ftruncate,link,linkat,symlink,symlinkat,close,dup,dup2,dup3"
 
 
-def trace(files, flags, inject: str | None = None):
-    base = make_sandbox(files)
+def trace(files, flags, inject: str | None = None, extra=None):
+    base = make_sandbox(files, extra)
     try:
         sb = base / "sb"
         tf = base / "trace.txt"
@@ -281,7 +301,7 @@ def tie_fsops(ctx: Ctx) -> None:
     outs_model = run_driver(lines, workers=1)
     bad = 0
     for (name, files, flags, bad_idx, uniq, ids, outs), targets, om in zip(cases, targets_of, outs_model):
-        rc, text, state, sb = trace(files, flags)
+        rc, text, state, sb = trace(files, flags, extra=EXTRA_FILES.get(name))
         got = traced_ops(text, sb, files, flags, targets)
         exp = [x for x in om.split(";") if x]
         ctx.count(["trace", name], nontrivial=bool(exp))
@@ -298,11 +318,11 @@ def strace_inject(ctx: Ctx) -> None:
     for name, files, flags, bad_idx in SCENARIOS:
         if not ("--inplace" in flags or "--auto" in flags or any(x.startswith("OUT/") for x in flags)):
             continue
-        before, after_ref, n, log, rc, _ = reference_run(files, flags)
+        before, after_ref, n, log, rc, _ = reference_run(files, flags, EXTRA_FILES.get(name))
         renames = sum(1 for l in log if l.startswith("replace") or l.startswith("rename"))
         for k in range(1, renames + 1):
             for what in (f"rename:error=EIO:when={k}", f"rename:signal=KILL:when={k}", f"rename:error=ENOSPC:when={k}"):
-                rc2, text, state, sb = trace(files, flags, inject=what)
+                rc2, text, state, sb = trace(files, flags, inject=what, extra=EXTRA_FILES.get(name))
                 ctx.count(["strace-inject", name, what], nontrivial=True)
                 ctx.bump("strace-inject")
                 msg = whole_state(name, files, flags, before, after_ref, state, bad_idx)
@@ -358,7 +378,7 @@ def run(ctx: Ctx) -> None:
     for scen in SCENARIOS:
         inject_all(ctx, scen, modes)
     strace_inject(ctx)
-    ctx.rule("10 scenarios (in place ± backup, --auto, -o into a new directory, stdout, three files ± backup, an undecodable file in "
+    ctx.rule("14 scenarios (in place ± backup, --auto, -o into a new directory, stdout, three files ± backup, an undecodable file in "
              "the middle, a 25 kB file, an already formatted file) × every mutating operation × {operation fails, process dies before "
              "it, process dies half-way through the write}; rename(2) failing with EIO/ENOSPC or killing the process (strace)")
     ctx.assume("rename(2) is atomic and a failed system call changes nothing (operating system); durability after power loss is outside "
